@@ -231,6 +231,17 @@ fn c18_conc(rng: &mut Rng, name: &'static str) -> Prepared {
     sc.cfg.shards = 2;
     sc.cfg.pool = 1;
     sc.cfg.buffer = 1;
+    // now and then a mapping function that calls back into the cache
+    if rng.chance(1, 4) {
+        let keys = sc.cfg.keys;
+        let t = rng.usize_below(sc.threads.len().min(3));
+        let at = rng.usize_below(sc.threads[t].len() + 1);
+        let key = rng.below(keys as u64) as u32;
+        let inner = if rng.chance(1, 2) { key } else { rng.below(keys as u64) as u32 };
+        // appended, so that the indices of the thread's earlier writes (and their tokens) stay put
+        let _ = at;
+        sc.threads[t].push(Op::MapGetCallingBack { key, inner });
+    }
     prep(sc)
 }
 
